@@ -113,3 +113,43 @@ handle_keyword = Contract(
     canaries=["result == ''"],
 )
 CONTRACTS.append(handle_keyword)
+
+# ------------------------------------------------------------------------------------------- to_docstring (C03 / C02: the docstring of emitted functions and classes)
+def _td_ir(n, returns=False):
+    d = {"name": "str", "doc": "str", "params": ("dict", {"p%d" % i: ("dict", {"typ": "str", "doc": "str"}) for i in range(n)}),
+         "returns": ("dict", {"return_type": ("dict", {"typ": "str", "doc": "str"})}) if returns else None}
+    return ("dict", d)
+
+
+def _td_case(name, ir, emit_types, assume=()):
+    return Case(name, {"intermediate_repr": ir, "emit_default_doc": False, "docstring_format": ("lit", "rest"), "indent_level": 2, "emit_types": emit_types,
+                       "emit_separating_tab": True, "word_wrap": False},
+                assume=["intermediate_repr['doc'] != ''", "('\\n' in intermediate_repr['doc']) == False"] + list(assume))
+
+
+_NOD = ["intermediate_repr['params']['p0']['doc'] != ''", "('Defaults' in intermediate_repr['params']['p0']['doc']) == False", "('defaults' in intermediate_repr['params']['p0']['doc']) == False",
+        "intermediate_repr['params']['p0']['typ'] != ''"]
+_SEP = "'        '"
+
+to_docstring = Contract(
+    "doctrans.emitter_utils:to_docstring",
+    properties=["C03", "C02", "C08"],
+    note="ReST, no word wrap, indent level 2, default text off, prose without a default sentence; emit_param_str, multiline, indent_all_but_first and textwrap.indent are "
+         "opaque and logged: the contract pins which entries are rendered, in which order, and how they are joined",
+    cases=[_td_case("one-param,types", _td_ir(1), True, _NOD), _td_case("one-param,no-types", _td_ir(1), False, _NOD), _td_case("no-params", _td_ir(0), True)],
+    use_contract_for=["doctrans.defaults_utils:extract_default", "doctrans.defaults_utils:needs_quoting"],
+    ensures=[
+        Clause("TD-header", "result[:1] == '\\n' and log_indent_args[0][0] == old_intermediate_repr['doc'] and log_indent_args[0][1] == %s" % _SEP,
+               note="the summary, indented by the level's separator, opens the docstring"),
+        Clause("TD-entry-types", "log_emit_param_str_n == 2 and log_emit_param_str_args[0][0][0] == 'p0' and log_emit_param_str_kwargs[0]['emit_type'] == False "
+                                 "and log_emit_param_str_args[1][0][0] == 'p0' and log_emit_param_str_kwargs[1]['emit_doc'] == False "
+                                 "and result == '\\n' + log_indent_results[0] + '\\n' + %s + '\\n' + %s + log_emit_param_str_results[0].replace('\\n', '\\n' + %s) + '\\n' + %s + log_emit_param_str_results[1].replace('\\n', '\\n' + %s) + '\\n' + %s + '\\n' + %s" % (_SEP, _SEP, _SEP, _SEP, _SEP, _SEP, _SEP),
+               when=["one-param,types"], note="C03 (types in the docstring): the prose line, then the type line of the same parameter, each on its own indented line"),
+        Clause("TD-entry-no-types", "log_emit_param_str_n == 1 and log_emit_param_str_kwargs[0]['emit_type'] == False", when=["one-param,no-types"],
+               note="inline types: no :type line is rendered"),
+        Clause("TD-no-params", "log_emit_param_str_n == 0 and result == '\\n' + log_indent_results[0] + '\\n' + %s" % _SEP, when=["no-params"], note="no entry is invented"),
+    ],
+    canaries=["result == ''"],
+)
+to_docstring.opaque = {"emit_param_str": {"ret": "str"}, "multiline": {"ret": "str"}, "indent_all_but_first": {"ret": "str"}, "indent": {"ret": "str"}}
+CONTRACTS.append(to_docstring)
